@@ -1,7 +1,7 @@
 (* What check_C05 decides on observed fan-out executions. *)
 From Coq Require Import List Arith Bool.
 Import ListNotations.
-From LSF Require Import Join.
+From LSF Require Import Join JoinCaught.
 
 Fixpoint list_nat_eqb (a b : list nat) : bool :=
   match a, b with
@@ -51,3 +51,14 @@ Definition c05_once_ok (c : c05_case) : bool :=
   list_nat_eqb (concat launches) (seq 0 n) &&
   forallb (fun i => Nat.eqb (length (filter (Nat.eqb i) finishes)) 1) (seq 0 n) && Nat.eqb (length finishes) n.
 Definition c05_bound_ok (c : c05_case) : bool := let '(mc, _, _, _, _, m) := c in Nat.eqb mc 0 || Nat.leb m mc.
+
+(* a fan-out (MaxConcurrency absent) in which failing states of some branches are caught inside the branch:
+   (number of branches, the reports in the order they were handled, the output array) replayed on crun:
+   no join before the last report, the join at the last report, carrying the observed outputs *)
+Definition c05c_case := (nat * list (bev nat) * list nat)%type.
+Definition c05_caught_model_ok (c : c05c_case) : bool :=
+  let '(n, evs, out) := c in
+  match rev (snd (crun (repeat SEmpty n) evs)) with
+  | CJoin res :: before => list_nat_eqb res out && forallb (fun a => match a with CJoin _ => false | _ => true end) before
+  | _ => false
+  end.
